@@ -65,3 +65,10 @@ func fscInv(c *FSContext) bool {
 //@   ensures[error-changes-nothing] r0 != 0 ==> forall k int :: fdHas(c, k) == old[bool](fdHas(c, k)) && (fdHas(c, k) ==> fdGet(c, k) == old[*FileEntry](fdGet(c, k)))
 //@   ensures[bad-source] (!old(fdHas(c, int(from))) || to < 0) ==> r0 == sys.EBADF
 //@   modifies obj(&c.openedFiles), elems(descriptor.VerifMasks(&c.openedFiles)), elems(descriptor.VerifItems(&c.openedFiles)), ghostflag("closed", fdGet(c, int(to)).File)
+
+// Closing the whole table closes every file and empties the table (assumed: it iterates with a
+// callback, which is outside the verified subset). Used by the module close protocol (C10).
+//@ prop C10
+//@ func (c *FSContext) Close() (err error)
+//@   trusted
+//@   modifies obj(&c.openedFiles)
